@@ -107,6 +107,18 @@ func (r *run) enter(site string, ctx context.Context) error {
 		r.setOutcome(site, "err:"+msg)
 		return errors.New(msg)
 	}
+	if r.s != nil && r.s.Class == "own-ctx-error" && site == r.d.Sites[r.s.K] {
+		// the request is NOT cancelled: this resolver's own downstream call ran
+		// into its own deadline / was cancelled, and it reports that error
+		var err error
+		if r.s.K%2 == 0 {
+			err = fmt.Errorf("downstream call: %w", context.DeadlineExceeded)
+		} else {
+			err = fmt.Errorf("downstream call: %w", context.Canceled)
+		}
+		r.setOutcome(site, "err:"+err.Error())
+		return err
+	}
 	observe := r.s != nil && r.s.Observe && ctx != nil
 	if g := r.held[site]; g != nil {
 		if observe {
